@@ -110,12 +110,14 @@ func (c *RepoCacheBug) ResolveComment(prefix string) (*BugCache, entity.Combined
 
 // Query return the id of all Bug matching the given Query
 func (c *RepoCacheBug) Query(q *query.Query) ([]entity.Id, error) {
-	c.mu.RLock()
-	defer c.mu.RUnlock()
-
 	if q == nil {
+		// AllIds takes the read lock itself: taking it again while holding it already
+		// deadlocks as soon as a writer shows up in between
 		return c.AllIds(), nil
 	}
+
+	c.mu.RLock()
+	defer c.mu.RUnlock()
 
 	matcher := compileMatcher(q.Filters)
 
